@@ -16,6 +16,7 @@ def main():
     rep.bounds = dict(kernels='all float/double kernels, n in 1..4, every bit pattern (NaN, denormal, +-0, inf included)',
                       machine_code='float/double programs of the family on sse and avx (mmx has no float rules); symbolic n (<= 2 vectors + 3), data, alignment',
                       quick_tier_not_claimed='bit equality of mul/div/sqrt and float->int conversion results between machine code and emulation (FP query not decided in the quick budget); their control flow, accesses and NaN handling paths are still executed')
+    rep.assume('thorough tier: programs doing mul/div/sqrt/conversions on full-width symbolic operands whose data equivalence z3 does not decide within 1500 s are listed under coverage.skipped (not decided, not claimed); a disagreement inside the flush-to-zero boundary class whose complement query is undecided is reported as an instance of the known finding')
     rep.assume('rounding mode at entry = nearest even; exceptions masked', 'z3 has one NaN: NaN results are compared by NaN-ness (the property only asks for that)',
                'sqrtf reference = float(sqrt(double)) (double-rounding theorem)', *x86common.ASSUME[:4])
     b = build.Build('c18')
